@@ -212,6 +212,29 @@ func runC14(c *Ctx) {
 	c.Call(Event{"op": "GcsBuilder", "desc": []interface{}{emptyTx}, "salt": 4711, "mempool": false})
 	c.Call(Event{"op": "GcsBuilder", "desc": []interface{}{}, "salt": 4712, "mempool": true})
 	c.Call(Event{"op": "GcsBuilder", "desc": []interface{}{}, "salt": 4713, "mempool": false})
+	// a Build in the middle of a builder's life: whatever is set or added afterwards counts in the next Build
+	{
+		st := func(k string, kv ...interface{}) map[string]interface{} {
+			m := map[string]interface{}{"k": k}
+			for i := 0; i+1 < len(kv); i += 2 {
+				m[kv[i].(string)] = kv[i+1]
+			}
+			return m
+		}
+		base := []interface{}{st("Add", "item", ints([]byte{1})), st("Add", "item", ints([]byte{2, 2})), st("Build")}
+		for _, after := range [][]interface{}{
+			{st("SetM", "v", int64(1))}, {st("SetM", "v", int64(math.MaxUint32))}, {st("SetM", "v", int64(784930))},
+			{st("SetP", "v", 1)}, {st("SetP", "v", 32)}, {st("SetP", "v", 20)}, {st("SetKey", "v", 7)},
+			{st("Add", "item", ints([]byte{3}))}, {st("Add", "item", ints([]byte{1}))}, {st("AddHash", "item", ints([]byte{9, 1}))},
+			{st("SetM", "v", int64(999)), st("Build"), st("SetM", "v", int64(784931))},
+			{st("SetKey", "v", 3), st("Build"), st("SetKey", "v", 0)},
+			{st("Build"), st("Build")},
+		} {
+			prog := append(append([]interface{}{}, base...), after...)
+			c.Call(Event{"op": "BuilderHist", "p0": 19, "m0": int64(784931), "prog": prog})
+			c.Call(Event{"op": "BuilderHist", "p0": 8, "m0": int64(300), "prog": prog})
+		}
+	}
 	// builder histories: error latch and de-duplication
 	for k := 0; k < c.Pick(150, 2000); k++ {
 		var prog []interface{}
